@@ -14,22 +14,22 @@ CHECKS = {
         technique="runtime monitoring: section-overlap + payload continuity monitors under a seeded scheduler; Miri and ThreadSanitizer on free-running production locks",
     ),
     "C05": dict(
-        level_text="Exploration by runtime monitoring: every raw release happylock issues is audited against the owner table (issuer must hold the lock, in that mode) and at the end of every episode every lock must be free.",
+        level_text="Exploration by runtime monitoring: every raw release happylock issues is audited against the owner table (issuer must hold the lock, in that mode) and at the end of every episode every lock must be free. The same audit runs in the raw-lock fault sweeps (single-thread fault enumeration and concurrent episodes with one clean raw-lock panic): a release issued there for a healthy lock the caller does not hold is reported here too. Acquisitions are also made from destructors during an unrelated unwind.",
         design_ref="DESIGN.md §3 C05",
-        level_note="Trusted: audit lock owner table. Holds for the fault-free programs/schedules produced.",
+        level_note="Trusted: audit lock owner table. Holds for the programs/schedules/fault positions produced.",
         technique="runtime monitoring: release audit in auditing raw locks",
     ),
 }
 
 CHECKS.update({
     "C03": dict(
-        level_text="Exploration by runtime monitoring: at the first raw operation of every acquiring call the caller's held set (audit owner table) must be empty, and whenever an API hands the key back (guard drop, unlock*, failed try, scoped return or unwind) the caller must hold nothing; after every step the same locks are re-acquired at once with the key that came back. Random API sequences with phantom holders, the exhaustive blocking shape sweep and every concurrent episode.",
+        level_text="Exploration by runtime monitoring: at the first raw operation of every acquiring call the caller's held set (audit owner table) must be empty, and whenever an API hands the key back (guard drop, unlock*, failed try, scoped return or unwind) the caller must hold nothing; after every step the same locks are re-acquired at once with the key that came back. Random API sequences with phantom holders, the exhaustive blocking shape sweep, every concurrent episode, calls made from destructors during an unrelated unwind, and calls unwound by a raw-lock panic - sequentially at every raw-op index and in concurrent episodes where one thread's raw operation panics (cleanly) while others are blocked on, hold, or later ask for the lock it killed.",
         design_ref="DESIGN.md §3 C03",
         level_note="Trusted: audit owner table; checked at API return, not at the raw unlock (scoped_* legitimately drops an owned key one statement before the release).",
         technique="runtime monitoring: held-set monitor at the client boundary over audit raw locks",
     ),
     "C04": dict(
-        level_text="Exploration by runtime monitoring: owner-table diff across every acquisition against the leaf set computed from the harness's own description of the shape (exactly the leaves, requested mode, once each); failed try leaves nothing held and hands the key back; no blocking raw op inside try_*; closure invocations = 1 iff acquired. Exhaustive over shapes x pre-held patterns for sizes 0..3 (0..4 thorough) for try and blocking APIs, a static catalogue of happylock's own tuple/array/boxed-slice/&/&mut impls under the audit locks, plus concurrent episodes.",
+        level_text="Exploration by runtime monitoring: owner-table diff across every acquisition against the leaf set computed from the harness's own description of the shape (exactly the leaves, requested mode, once each); failed try leaves nothing held and hands the key back; no blocking raw op inside try_*; closure invocations = 1 iff acquired. Exhaustive over shapes x pre-held patterns for sizes 0..3 (0..4 thorough) for try and blocking APIs, a static catalogue of happylock's own tuple/array/boxed-slice/&/&mut impls under the audit locks, plus concurrent episodes; a third of the sweep's cases are made from a destructor that runs during an unrelated unwind (thread::panicking() true throughout).",
         design_ref="DESIGN.md §3 C04",
         level_note="Trusted: audit owner table, the harness's flattening of its own shape description (exec.rs expected_ids).",
         technique="runtime monitoring: owner-table diff vs shape oracle, exhaustive small-shape sweep + scheduled episodes",
@@ -59,19 +59,19 @@ CHECKS.update({
         technique="runtime monitoring: wait-while-holding detector on raw-lock events under a seeded scheduler + bounded-progress check",
     ),
     "C10": dict(
-        level_text="Exploration by runtime monitoring: an executable PoisonModel (must / may bits per Poisonable) is stepped alongside random histories of holds, panics, clear_poison and re-acquisitions through every route; is_poisoned() after every step and the Ok/Err of every Poisonable position of every acquisition must agree with it; a panic-free soak checks 'never spuriously poisoned'; the same model runs inside the concurrent panic episodes with a scheduling point right after every release (so a flag stored after the unlock can be overtaken). One genuine defect is recorded as a known finding (scoped closures of collections do not poison).",
+        level_text="Exploration by runtime monitoring: an executable PoisonModel (must / may bits per Poisonable) is stepped alongside random histories of holds, panics, clear_poison and re-acquisitions through every route; is_poisoned() after every step and the Ok/Err of every Poisonable position of every acquisition must agree with it; holds taken through guard+unlock are ended by the explicit unlock function from a destructor when their section panics; holds made entirely inside an unrelated unwind may (not must) poison; a panic-free soak checks 'never spuriously poisoned'; the same model runs inside the concurrent panic episodes with a scheduling point right after every release (so a flag stored after the unlock can be overtaken). One genuine defect is recorded as a known finding (scoped closures of collections do not poison).",
         design_ref="DESIGN.md §3 C10, §5 D7",
         level_note="Trusted: PoisonModel transitions (exec.rs section(), poisonfam.rs). Three-valued where the statement is silent (panics under shared holds).",
         technique="runtime monitoring: reference-model (PoisonModel) comparison over generated panic histories",
     ),
     "C11": dict(
-        level_text="Fault enumeration by runtime monitoring: a typed panic is injected in the critical section of every (shape x mode x API flavour x key style) case and, under the seeded scheduler, in sections of concurrent programs with waiters; after the unwind is caught at the client boundary the monitors require the injected payload (not swallowed / replaced), an empty held set, no release audited as bad, an obtainable key, and progress of waiters (deadlock monitor / immediate re-acquisition).",
+        level_text="Fault enumeration by runtime monitoring: a typed panic is injected in the critical section of every (shape x mode x API flavour x key style) case and, under the seeded scheduler, in sections of concurrent programs with waiters; after the unwind is caught at the client boundary the monitors require the injected payload (not swallowed / replaced), an empty held set, no release audited as bad, an obtainable key, and progress of waiters (deadlock monitor / immediate re-acquisition). Every case is repeated from inside a destructor during an unrelated unwind (nested panic).",
         design_ref="DESIGN.md §3 C11",
         level_note="Trusted: audit owner table + release audit, scheduler. User panics and raw-lock faults are never combined in one episode.",
         technique="runtime monitoring with panic injection: owner-table, release-audit and key probes after caught unwinds",
     ),
     "C12": dict(
-        level_text="Fault enumeration by runtime monitoring: for every (shape x mode x API x pre-held pattern) case a dry run counts the raw lock operations of the whole call; then a one-shot panic is injected at every raw-op index in phase before/after (and the persistent per-operation faults of tests/evil_*.rs at every leaf position). After the unwind is caught, rules R1-R5 are evaluated from the audit owner table, the release audit and post-mortem probes (faulted lock must refuse try and make blocking acquisition panic; healthy locks must still work). Three genuine defect clusters were found and repaired (fix: commits ca28fe8, 99bc49a, 6f62146).",
+        level_text="Fault enumeration by runtime monitoring: for every (shape x mode x API x pre-held pattern) case a dry run counts the raw lock operations of the whole call; then a one-shot panic is injected at every raw-op index in phase before/after (and the persistent per-operation faults of tests/evil_*.rs at every leaf position). After the unwind is caught, rules R1-R5 are evaluated from the audit owner table, the release audit and post-mortem probes (faulted lock must refuse try and make blocking acquisition panic; healthy locks must still work). A concurrent lane injects one clean raw-lock panic per scheduled episode (thread and raw-op index drawn per item): calls unwound by it, or by the up-front panic of the lock it killed, must leave their thread holding nothing with an obtainable key, and the episode must still complete. Three genuine defect clusters were found and repaired (fix: commits ca28fe8, 99bc49a, 6f62146).",
         design_ref="DESIGN.md §3 C12, §5 D4-D6",
         level_note="Trusted: audit locks' fault injector + release audit; the faulted lock's own state is exempt from leak accounting except where the caller provably never held it.",
         technique="runtime monitoring with fault injection in auditing raw locks: exhaustive fault-position enumeration per case",
@@ -83,14 +83,14 @@ CHECKS.update({
         technique="runtime monitoring: exhaustive enumeration against a reference oracle over audit raw locks",
     ),
     "C14": dict(
-        level_text="Other (compile-gated execution): one minimal offending program per escape route (43 routes), each with a compiling and running twin; rustc against the rlib built from the current tree decides; accepted offending programs are executed and must show their own harm. Plus run-time probes of which types implement Keyable, and the C06 KeyModel histories as run-time evidence on the accepted surface. Two routes are open on the current tree and recorded as known finding D2; defect D10 (second key after a refused get) was found by the KeyModel and repaired.",
+        level_text="Other (compile-gated execution): one minimal offending program per escape route (184 routes: 44 hand-written escape shapes plus the cross product of every key-taking method of the 8 lock / wrapper / collection types with `()`, `&key` and - for guard APIs - `&mut key` in the key position), each with a compiling and running twin; rustc against the rlib built from the current tree decides; accepted offending programs are executed and must show their own harm. Plus run-time probes of which types implement Keyable, and the C06 KeyModel histories as run-time evidence on the accepted surface. Two routes are open on the current tree and recorded as known finding D2; defect D10 (second key after a refused get) was found by the KeyModel and repaired.",
         design_ref="DESIGN.md §3 C14, §2.8",
         level_note="The 'for all programs' quantifier is sampled by a finite corpus of escape shapes; rejection is rustc's observation. Every *violation* this lane reports is backed by an executed witness.",
         technique="compile-gated corpus with executed witnesses + runtime KeyModel monitor",
         engine="compile-gate",
     ),
     "C15": dict(
-        level_text="Other (compile-gated execution + sanitizers): 41 escape routes with twins, the run-time auto-trait matrix (216 probes against std analogues) and the production-lock workload under Miri. Defects D1 (RwLock Sync / RefLockCollection Send bounds) and the Mutex/RwLock half of D3 were found here and repaired; the collection half of D3 is a recorded known finding.",
+        level_text="Other (compile-gated execution + sanitizers): 86 escape routes with twins (hand-written shapes plus, for every scoped method of every lock / wrapper / collection type, return-escape and - for Mutex/RwLock - Cell-capture escape of the closure's reference), the run-time auto-trait matrix (216 probes against std analogues) and the production-lock workload under Miri. Defects D1 (RwLock Sync / RefLockCollection Send bounds) and the Mutex/RwLock half of D3 were found here and repaired; the collection / Poisonable half of D3 is a recorded known finding, listed per call site (23 routes).",
         design_ref="DESIGN.md §3 C15, §2.8",
         level_note="Finite corpus of escape shapes; rustc decides acceptance; Miri / native self-checks provide witnesses for accepted programs.",
         technique="compile-gated corpus with executed witnesses, run-time auto-trait matrix vs std, Miri on production locks",
@@ -103,7 +103,7 @@ CHECKS.update({
         technique="runtime monitoring: exactly-once drop accounting + Miri / valgrind memcheck on the same workload",
     ),
     "C17": dict(
-        level_text="Exploration by runtime monitoring: every non-acquiring operation runs under a call context; the monitor rejects any blocking raw op inside it and any difference of the owner table before/after (transient try-acquire+release inside Debug is allowed). Locks are free, held by a phantom, held by the caller's own live guard, inside a running scoped closure, or held through a leaked guard.",
+        level_text="Exploration by runtime monitoring: every non-acquiring operation runs under a call context; the monitor rejects any blocking raw op inside it and any difference of the owner table before/after (transient try-acquire+release inside Debug is allowed). Locks are free, held by a phantom, held by the caller's own live guard, inside a running scoped closure, or held through a leaked guard; shapes with Poisonable leaves are swept a second time with every wrapper poisoned.",
         design_ref="DESIGN.md §3 C17",
         level_note="Trusted: audit owner table and call contexts. Found and fixed one genuine defect (Debug of a locked Mutex unlocked it).",
         technique="runtime monitoring: before/after owner-table diff + blocking-op detector around non-acquiring calls",
